@@ -195,7 +195,8 @@ def noop(I, env, args, kwargs):
 
 
 def declare_noop(C, cls, *methods, reason="notification only; does not touch the state under proof"):
-    C.cls(cls, fields={})
+    if cls not in C.classes:
+        C.cls(cls, fields={})
     for m in methods:
         C.ext("%s.%s" % (cls, m), model=noop, trusted_reason=reason)
 
